@@ -3,5 +3,5 @@ CONSTANTS
   MaxRoot = 2
   MaxAdd = 3
   MaxGroups = 2
-INVARIANTS TypeOK Partition AdditionsAfterMarker GroupsKept ChoiceHasNoGroupMembers FoldAgrees Emit
+INVARIANTS TypeOK Partition AdditionsAfterMarker GroupsKept ChoiceHasNoGroupMembers FoldAgrees Emit EmitHeader
 CHECK_DEADLOCK FALSE
